@@ -555,6 +555,37 @@ pub fn stream<F: Fam>(tier: &str, seed: u64) -> Vec<String> {
             out.push(format!("poll v5 {} - eof", h));
         }
     }
+    // mid-size packets (4–6 KB: beyond any "small body" fast path) with ONE and with every PAIR of same-length
+    // malformations — which of two errors is reported must not depend on the size of the packet
+    for (k, p) in F::sweep(false).iter().enumerate() {
+        let enc = match F::encode(p) {
+            Ok(e) if e.len() >= 4000 && e.len() <= 6000 && k % 3 == 0 => e,
+            _ => continue,
+        };
+        let ms = malformations::<F>(p, &mut rng);
+        let subs: Vec<&Malformed> = ms.iter().filter(|m| m.frame.len() == enc.len()).collect();
+        for (a_i, a) in subs.iter().enumerate() {
+            out.push(format!("dec {} {}", F::NAME, hex(&a.frame)));
+            out.push(format!("poll {} {} - eof", F::NAME, hex(&a.frame)));
+            for b in subs.iter().skip(a_i + 1) {
+                let mut f = enc.clone();
+                let mut both = 0;
+                for i in 0..f.len() {
+                    if a.frame[i] != enc[i] {
+                        f[i] = a.frame[i];
+                        both |= 1;
+                    } else if b.frame[i] != enc[i] {
+                        f[i] = b.frame[i];
+                        both |= 2;
+                    }
+                }
+                if both == 3 {
+                    out.push(format!("dec {} {}", F::NAME, hex(&f)));
+                    out.push(format!("poll {} {} - eof", F::NAME, hex(&f)));
+                }
+            }
+        }
+    }
     for i in 0..n {
         let p = F::gen(&mut rng, i, Sizes { big: false });
         let ms = malformations::<F>(&p, &mut rng);
